@@ -13,19 +13,20 @@ Lemma script_read_weight comb evs k bs e evs' :
   ev_weight evs' <= ev_weight evs /\ (1 <= k -> e = None -> ev_weight evs' < ev_weight evs) /\
   (e = None \/ e = Some EEof \/ e = Some EInjected).
 Proof.
-  destruct evs as [|[d| |] r]; simpl; intro E.
+  destruct evs as [|[d| | |] r]; simpl; intro E.
   - inversion E; subst. fin3.
   - destruct (length d <=? k) eqn:L.
     + destruct comb.
-      * destruct r as [|[d'| |] r']; inversion E; subst; simpl; fin3.
+      * destruct r as [|[d'| | |] r']; inversion E; subst; simpl; fin3.
       * inversion E; subst. fin3.
     + apply Nat.leb_gt in L. inversion E; subst. simpl. rewrite skipn_length. fin3.
+  - inversion E; subst. fin3.
   - inversion E; subst. fin3.
   - inversion E; subst. fin3.
 Qed.
 
 Lemma clamp_ge1 k n : 1 <= k -> (0 < n)%Z -> 1 <= clamp k n.
-Proof. unfold clamp. intros. destruct (Z.of_nat k >? n)%Z; lia. Qed.
+Proof. rewrite clamp_min. lia. Qed.
 
 Definition bw (s : base) : nat := ev_weight (b_evs s).
 
